@@ -58,8 +58,9 @@ type Walk struct {
 }
 
 type result struct {
-	verdict  string // held | violated | ood | harness
-	key      string
+	verdict  string   // held | violated | ood | harness
+	key      string   // first finding key
+	keys     []string // all finding keys of the case: one per anomaly component
 	what     string
 	want     []dmodel.Desc
 	got      []dmodel.Desc
@@ -155,28 +156,66 @@ func models(cs Case, final *dmodel.Model) (a, b *dmodel.Model, kinds []string, e
 	return a, b, kinds, nil
 }
 
-// sig is the class of a set of missing / extra descriptors: their kinds and bit sets without names. A
-// column type change is qualified by its type class transition (e.g. {user->user}), so that a finding
-// about one family of types does not hide another.
-func sig(ds []dmodel.Desc, a, b *dmodel.Model) string {
+// components splits the difference between expected and observed descriptors into anomaly components,
+// one finding key each, without object names:
+//
+//	missing=<Kind[bits]>          an expected change that was not reported
+//	extra=<Kind[bits]>            a reported change nobody asked for
+//	wrongbits=<Kind>{..}:-A+B     the change was reported for the right object with bit A missing / B extra
+//
+// A column change is qualified by the type class of the column (from->to when the Type bit is part of
+// the anomaly, else the class of the current column), so that a finding about one family of types does
+// not hide another.
+func components(missing, extra []dmodel.Desc, a, b *dmodel.Model) []string {
+	class := func(d dmodel.Desc, withTo bool) string {
+		if d.Kind != "ModifyColumn" {
+			return ""
+		}
+		ta, tb := a.Table(d.Table), b.Table(d.Table)
+		if ta == nil || tb == nil {
+			return ""
+		}
+		ca, cb := ta.Column(d.Object), tb.Column(d.Object)
+		if ca == nil || cb == nil {
+			return ""
+		}
+		if withTo {
+			return fmt.Sprintf("{%s->%s}", ca.Type.Class, cb.Type.Class)
+		}
+		return fmt.Sprintf("{%s}", ca.Type.Class)
+	}
 	set := map[string]bool{}
-	for _, d := range ds {
-		k := d.KindBits()
-		if d.Kind == "ModifyColumn" && d.Bits&uint(schema.ChangeType) != 0 {
-			if ta, tb := a.Table(d.Table), b.Table(d.Table); ta != nil && tb != nil {
-				if ca, cb := ta.Column(d.Object), tb.Column(d.Object); ca != nil && cb != nil {
-					k += fmt.Sprintf("{%s->%s}", ca.Type.Class, cb.Type.Class)
+	used := make([]bool, len(extra))
+next:
+	for _, m := range missing {
+		for i, e := range extra {
+			if !used[i] && e.Kind == m.Kind && e.Table == m.Table && e.Object == m.Object && m.Bits != e.Bits && m.Bits != 0 && e.Bits != 0 {
+				used[i] = true
+				lost, added := m.Bits&^e.Bits, e.Bits&^m.Bits
+				k := "wrongbits=" + m.Kind + class(m, (lost|added)&uint(schema.ChangeType) != 0) + ":"
+				for _, n := range dmodel.BitNames(lost) {
+					k += "-" + n
 				}
+				for _, n := range dmodel.BitNames(added) {
+					k += "+" + n
+				}
+				set[k] = true
+				continue next
 			}
 		}
-		set[k] = true
+		set["missing="+m.KindBits()+class(m, m.Bits&uint(schema.ChangeType) != 0)] = true
+	}
+	for i, e := range extra {
+		if !used[i] {
+			set["extra="+e.KindBits()+class(e, e.Bits&uint(schema.ChangeType) != 0)] = true
+		}
 	}
 	out := make([]string, 0, len(set))
 	for k := range set {
 		out = append(out, k)
 	}
 	sort.Strings(out)
-	return strings.Join(out, ",")
+	return out
 }
 
 // evaluate runs one case against the real differ and decides it.
@@ -270,7 +309,10 @@ func evaluate(cs Case, final *dmodel.Model) (res result) {
 		cl = "identity"
 	}
 	res.verdict = "violated"
-	res.key = fmt.Sprintf("%s|%s|%s|missing=%s|extra=%s", cs.Dialect, mode(cs), cl, sig(missing, a, b), sig(extra, a, b))
+	for _, comp := range components(missing, extra, a, b) {
+		res.keys = append(res.keys, fmt.Sprintf("%s|%s|%s|%s", cs.Dialect, mode(cs), cl, comp))
+	}
+	res.key = res.keys[0]
 	res.what = fmt.Sprintf("%s %s: change set differs from the reference: missing %v, extra %v", cs.Dialect, cs.Class, dmodel.DescStrings(missing), dmodel.DescStrings(extra))
 	return res
 }
@@ -291,7 +333,7 @@ func shrink(cs Case, key string) Case {
 			try := cs
 			try.Edits = append(append([]string(nil), cs.Edits[:i]...), cs.Edits[i+1:]...)
 			if p, _, _ := rt.Try(func() {
-				if r := evaluate(try, nil); r.verdict == "violated" && r.key == key {
+				if r := evaluate(try, nil); r.verdict == "violated" && hasKey(r, key) {
 					cs, changed = try, true
 				}
 			}); p {
@@ -303,6 +345,34 @@ func shrink(cs Case, key string) Case {
 		}
 	}
 	return cs
+}
+
+func hasKey(r result, key string) bool {
+	if r.key == key {
+		return true
+	}
+	for _, k := range r.keys {
+		if k == key {
+			return true
+		}
+	}
+	return false
+}
+
+// report writes one violation record per finding key of the case (walks are first shrunk per key).
+func report(c *rt.Ctx, cs Case, res result) {
+	keys := res.keys
+	if len(keys) == 0 {
+		keys = []string{res.key}
+	}
+	for _, k := range keys {
+		cs1, res1 := cs, res
+		if strings.HasPrefix(cs.Class, "walk") {
+			cs1 = shrink(cs, k)
+			res1 = evaluate(cs1, nil)
+		}
+		c.Violation(k, res1.what, cs1, detail(cs1, res1))
+	}
 }
 
 func detail(cs Case, res result) map[string]any {
@@ -332,8 +402,8 @@ func init() {
 			fmt.Println("error:   ", res.errText)
 		}
 		if res.verdict == "violated" || res.verdict == "harness" {
-			c.Violation(res.key, res.what, cs, detail(cs, res))
-			fmt.Println("VIOLATED:", res.key, "—", res.what)
+			report(c, cs, res)
+			fmt.Println("VIOLATED:", res.key, res.keys, "—", res.what)
 		} else {
 			fmt.Println(res.verdict, res.what)
 		}
@@ -541,11 +611,7 @@ func run(c *rt.Ctx) {
 		sort.Strings(obs)
 		c.Eval(rt.Digest(cs.Dialect, strings.Join(ks, "+"), strings.Join(obs, ",")), len(res.got) > 0)
 		if res.verdict == "violated" {
-			if strings.HasPrefix(cs.Class, "walk") {
-				cs = shrink(cs, res.key)
-				res = evaluate(cs, nil)
-			}
-			c.Violation(res.key, res.what, cs, detail(cs, res))
+			report(c, cs, res)
 			return
 		}
 		if len(res.got) >= 3 && strings.HasPrefix(cs.Class, "walk") && c.WantSample() {
